@@ -18,6 +18,8 @@ MODES = {
     'dbg':   ('gcc', '-O1 -g ' + SAN, '-O1 -g ' + SAN, SAN),
     'schar': ('gcc', '-O2 -DNDEBUG -fsigned-char', '-O2', ''),
     'uchar': ('gcc', '-O2 -DNDEBUG -funsigned-char', '-O2', ''),
+    'schar-dbg': ('gcc', '-O1 -g -fsigned-char', '-O1 -g', ''),        # assertions on (the library's own word-list self-test runs in polyseed_inject)
+    'uchar-dbg': ('gcc', '-O1 -g -funsigned-char', '-O1 -g', ''),
     'tsanrt': ('gcc', '-O1 -g -DNDEBUG -fsanitize=thread', '-O1 -g', ''),      # custom __tsan_* runtime in the harness
     'tsan':  ('gcc', '-O1 -g -DNDEBUG -fsanitize=thread', '-O1 -g -fsanitize=thread', '-fsanitize=thread'),
 }
